@@ -421,6 +421,8 @@ class Run:
             return self.F_("C11", "oracle", f"{where}: malformed call {desc} "
                            f"{'raised ' + str(exc) if res == 'raised' else 'was accepted without an error'} and left "
                            f"non-finite values in the archive ({type(e).__name__}: {e})")
+        if res == "accepted" and faultlib.must_raise(op):
+            return self.F_("C11", "oracle", f"{where}: malformed call {desc} was accepted without an error")
         if res == "accepted":
             # a malformed call that is silently accepted must at least not touch the archive (this happens when
             # no row would be inserted: the store returns before looking at the fields)
